@@ -10,6 +10,7 @@
   `ncols ≤ 63`, it is 64.
 -/
 import GoldilocksVerif.Lemmas.BridgeNttItersTop
+import GoldilocksVerif.Lemmas.BridgeNttTac
 import GoldilocksVerif.Lemmas.BridgeParcpy
 
 namespace GoldilocksVerif.BridgeNtt
@@ -93,7 +94,13 @@ theorem nttIters_gen1 (fuel : Nat) (hf : 64 ≤ fuel) (hp : Heap) (self : NTT_Go
     simp only [Bool.false_eq_true, if_false] at hts
     simp only [Option.bind_some]
     have hone : (1#64 : BitVec 64) = bv 1 := rfl
-    rw [hone, Loop.whileM_stop _ _ _ _ (pass_stop self 1 NC 0 0 inverse extend 0 1 1 (by omega) (by omega) _ _ _ _)]
+    -- the pass loop is left at its first test (`s = 1 > domainPow = 0`), whatever the parameter list of its step function
+    rw [hone, Loop.whileM_stop _ _ _ _ (by
+        have hle : decide (bv 1 ≤ bv 0) = false := by decide
+        unfold_loops
+        dsimp only
+        rw [hle]
+        rfl)]
     have hne' : ((⟨Ax, 0⟩ : Ptr) != ⟨D, 0⟩) = true := by rw [ptr_ne]; simp [Ne.symm hDA]
     have hgt : ¬ (1 > 1) := by omega
     simp only [Option.bind_some, hne', if_true, hsize1, Bool.false_eq_true, if_false, hgt, bv_mul, Nat.one_mul]
